@@ -454,28 +454,60 @@ def _in_loop(e: Event) -> bool:
     return any(s[0] == 'while' or (s[0] == 'for' and not over_phis(s[1])) for s in e.scopes)
 
 
-def _stability(g: Any, phi: Any, flip: bool = False) -> Optional[bool]:
-    """True when guard `g` holds exactly if the phi's value did not change; None when `g` says nothing about it."""
+def _stability(g: Any, phi: Any, flip: bool = False, same: frozenset = frozenset()) -> Optional[bool]:
+    """True when guard `g` holds exactly if the phi's value did not change; None when `g` says nothing about it.
+    `same` names the two-argument functions of the module shown (by `_sameness_functions`) to answer "the same lattice
+    element"."""
     if not isinstance(g, tuple) or not g:
         return None
     if g[0] == 'not':
-        return _stability(g[1], phi, not flip)
+        return _stability(g[1], phi, not flip, same)
     if g[0] == 'call' and g[1] == 'all' and g[2]:
-        return _stability(g[2][0], phi, flip)
+        return _stability(g[2][0], phi, flip, same)
     if g[0] == 'comp':
-        return _stability(g[1], phi, flip)
+        return _stability(g[1], phi, flip, same)
     if g[0] == 'ite' and g[2] == ('k', True) and g[3] == ('k', False):
-        return _stability(g[1], phi, flip)
+        return _stability(g[1], phi, flip, same)
     if g[0] in ('and',):
-        rs = [_stability(x, phi, flip) for x in g[1]]
+        rs = [_stability(x, phi, flip, same) for x in g[1]]
         rs = [r for r in rs if r is not None]
         return all(rs) if rs else None
+    cur = [('at', sym('self.by_def'), phi), ('call', 'self.by_def.get', (phi,), ())]
     if g[0] == 'cmp' and g[1] in ('==', '!='):
-        cur = [('at', sym('self.by_def'), phi), ('call', 'self.by_def.get', (phi,), ())]
         if any(_mentions(g[2], c) or _mentions(g[3], c) for c in cur):
             eq = g[1] == '=='
             return eq != flip
+    if g[0] == 'call' and g[1] in same and len(g[2]) == 2:
+        if any(_mentions(a, c) for a in g[2] for c in cur):
+            return not flip
     return None
+
+
+def _sameness_functions(ctx: Ctx, rel: str) -> frozenset:
+    """The two-argument module functions of `rel` that decide "the same lattice element": evaluated, from their source,
+    on every pair drawn from bottom (None), top, two different constants and a NaN (a constant that `==` calls different
+    from itself); the answer is True exactly on the diagonal."""
+    funcs = _module_functions(ctx, rel)
+
+    def nan() -> Obj:
+        return Obj('Float', eq=lambda me, other: False, is_zero=lambda: False, is_nar=lambda: True, isnan=True, isinf=False, s=False)
+    elems = [None, 'TOP', Fraction(1), Fraction(2), nan()]
+    out = set()
+    for name, fn in funcs.items():
+        if len(fn.args.args) != 2 or fn.args.vararg or fn.args.kwonlyargs:
+            continue
+        try:
+            ok = True
+            for i, a in enumerate(elems):
+                for j, b in enumerate(elems):
+                    it = Interp(funcs, globals_={'_TOP': 'TOP'}, overrides={'same_value': lambda p, q: p is q})
+                    if bool(it.call_function(fn, [a, b])) != (i == j):
+                        ok = False
+            if ok:
+                out.add(name)
+        except Exception:
+            continue
+    return frozenset(out)
 
 
 def _check_fixpoint(ctx: Ctx, rel: str, q: str, body_name: str = 'run_body'):
@@ -497,10 +529,11 @@ def _check_fixpoint(ctx: Ctx, rel: str, q: str, body_name: str = 'run_body'):
     ctx.check(bool(runs) and bool(joins) and min(e.seq for e in runs) < min(e.seq for e, v in joins if _is_join(v, phi) or True), rel, fn, q,
               'the body is re-read before the phis are re-joined', 'the join precedes the pass it should summarise')
     exits = [e for e in ex.events if _in_loop(e) and (e.kind == 'return' or (e.kind == 'call' and e.name == 'break'))]
+    same = _sameness_functions(ctx, rel)
     ok = bool(exits)
     detail = 'the loop has no exit'
     for e in exits:
-        verdicts = [_stability(g, phi) for g in e.guards]
+        verdicts = [_stability(g, phi, same=same) for g in e.guards]
         if not any(v is True for v in verdicts) or any(v is False for v in verdicts):
             ok = False
             detail = f'exit at line {getattr(e.node, "lineno", 0)} under {[show(g)[:120] for g in e.guards]} does not require the phis to be unchanged'
@@ -605,6 +638,24 @@ def d2_partial_eval(ctx: Ctx):
     from .c19 import ieval, outcome
     _check_merge(ctx, PE, '_PartialEvalInstance._merge_branch_phis')
     ex, phi = _check_fixpoint(ctx, PE, '_PartialEvalInstance._loop_fixpoint')
+    # the constants of this lattice are numbers, and a NaN is `!=` to itself: a convergence test written with `==` / `!=`
+    # sees a loop that carries a constant NaN change on every pass and never stops
+    fx = ctx.fn(PE, '_PartialEvalInstance._loop_fixpoint')
+    same = _sameness_functions(ctx, PE)
+    cur = [('at', sym('self.by_def'), phi), ('call', 'self.by_def.get', (phi,), ())]
+
+    def raw_compares(g):
+        if isinstance(g, tuple):
+            if g and g[0] == 'cmp' and g[1] in ('==', '!=') and any(_mentions(g[2], c) or _mentions(g[3], c) for c in cur):
+                yield g
+            for x in g:
+                yield from raw_compares(x)
+    exits = [e for e in ex.events if _in_loop(e) and (e.kind == 'return' or (e.kind == 'call' and e.name == 'break'))]
+    raw = [g for e in exits for gd in e.guards for g in raw_compares(gd)]
+    by_fn = [gd for e in exits for gd in e.guards if _stability(gd, phi, same=same) is True and not list(raw_compares(gd))]
+    ctx.check(not raw and bool(by_fn), PE, fx, '_PartialEvalInstance._loop_fixpoint', 'whether a phi changed is decided by a test that calls a NaN constant the same as itself',
+              f'decided with {[show(g)[:80] for g in raw] or "no recognised test"} (sameness functions of the module: {sorted(same) or "none"}): '
+              '`a = fp.nan(); for _ in range(n): a = fp.nan(); return a` keeps the analysis, and simplify, spinning forever')
     # a definition the analysis has no value for is *unknown* (top), not *unvisited* (the meet's unit):
     # both operands of every meet are read with the top default
     for q in ('_PartialEvalInstance._merge_branch_phis', '_PartialEvalInstance._loop_fixpoint'):
@@ -690,6 +741,28 @@ def d2_partial_eval(ctx: Ctx):
     t = norm(f, 3000)
     ctx.check('else: self._clear_binding(stmt, stmt.target)' in t, PE, f, '_PartialEvalInstance._visit_assign',
               'a right-hand side that is not constant clears what an earlier pass recorded for the target', 'a constant from an optimistic first pass survives after the phi went to top')
+    # a constant bound through a pattern: a list unpacks like a tuple (the interpreter accepts `a, b = [1.0, 2.0]`), and a
+    # constant of any other shape leaves the names unknown -- the analysis never raises on a program that runs
+    f = ctx.fn(PE, '_PartialEvalInstance._visit_binding')
+    nm = {k: Obj('NamedId', label=k) for k in 'abc'}
+    pat2 = Obj('TupleBinding', elts=[nm['a'], nm['b']])
+    nested = Obj('TupleBinding', elts=[nm['a'], Obj('TupleBinding', elts=[nm['b'], nm['c']])])
+    one, two, three = Fraction(1), Fraction(2), Fraction(3)
+    for what, pat, val, want in (('a, b = (1, 2)', pat2, (one, two), {'a': one, 'b': two}), ('a, b = [1, 2]', pat2, [one, two], {'a': one, 'b': two}),
+                                 ('a, (b, c) = (1, [2, 3])', nested, (one, [two, three]), {'a': one, 'b': two, 'c': three}),
+                                 ('a, b = [1, 2, 3]', pat2, [one, two, three], {}), ('a, b = 1', pat2, one, {})):
+        by_def: dict = {}
+        it = Interp(pe_funcs, methods=pe_meths, globals_={'_TOP': 'TOP'}, is_a=lambda k, c: k == c or (k == 'NamedId' and c == 'Id'),
+                    self_obj=Obj('_PartialEvalInstance', by_def=by_def, def_use=Obj('DefineUseAnalysis', find_def_from_site=lambda name, site: name.fields['label'])))
+        try:
+            it.call_function(pe_meths['_visit_binding'], [Obj('Assign'), pat, val], bound_self=True)
+            got: Any = dict(by_def)
+        except Exception as exc:  # the source raises (an assertion, an unpacking error)
+            got = f'raises {type(exc).__name__}'
+        # (a right-hand side of the wrong shape: the program raises when run, so only "the analysis does not" is asked)
+        ctx.check(got == want if want else not isinstance(got, str), PE, f, '_PartialEvalInstance._visit_binding',
+                  f'`{what}` with a constant right-hand side ' + (f'binds {want}' if want else 'is analysed without raising'),
+                  f'got {got}: ConstFold and simplify fail (or bind the wrong constants) on a program that runs')
     f = ctx.fn(PE, '_PartialEvalInstance._visit_expr')
     ctx.check(any(norm(s) == 'self.by_expr.pop(e, None)' for s in f.body), PE, f, '_PartialEvalInstance._visit_expr',
               'a revisited expression forgets the value of the previous pass first', 'a constant from an optimistic first pass survives')
@@ -1474,6 +1547,13 @@ RULES = [
 from ..selftest import Mutant  # noqa: E402
 
 MUTANTS = [
+    Mutant('loop-fixpoint-compares-constants-with-!=', PE, "                if not _same_element(new, old):", "                if new != old:", 'C13.D2',
+           'finding F109 before its repair: simplify never returns on a loop carrying a constant NaN'),
+    Mutant('constant-list-not-unpacked', PE, "                if isinstance(val, (tuple, list)) and len(val) == len(binding.elts):\n                    for elt, v in zip(binding.elts, val):\n                        self._visit_binding(site, elt, v)\n                else:\n                    self._clear_binding(site, binding)\n",
+           "                assert isinstance(val, tuple)\n                for elt, v in zip(binding.elts, val):\n                    self._visit_binding(site, elt, v)\n", 'C13.D2',
+           'finding F111 before its repair: a, b = [1.0, 2.0] makes ConstFold raise AssertionError'),
+    Mutant('sameness-of-elements-forgets-top', PE, "    if a is None or b is None or a is _TOP or b is _TOP:\n        return a is b\n    return _same_constant(a, b)", "    if a is None or b is None:\n        return a is b\n    return a is b or _same_constant(a, b)", 'C13.D2',
+           'top compared with a constant by == : still false, the same answers on every pair', expect='silent'),
     Mutant('slice-of-non-rows-shares-nothing', ALIAS, "                base = self._region_for(e.value)\n                if base is not None:\n                    self.regions.merge(\n                        self._part(region), self._part(base),",
            "                base = self._region_for(e.value)\n                ty = self.types.by_expr.get(e)\n                if base is not None and isinstance(ty, ListType) and isinstance(ty.elt, ListType):\n                    self.regions.merge(\n                        self._part(region), self._part(base),", 'C13.X2',
            'seeded change C13e: a slice of a list of tuples that hold lists loses its link to the source'),
